@@ -138,6 +138,9 @@ def scenarios(tier):
         # entering IDLE flushes what is waiting and then switches to immediate delivery: flag changes made meanwhile keep their order
         dict(scn("store,store|idle,done slow reader", SEL_AB + DEL1[:1], A=["store1", "store1y"], B=["idle", "done"]), slow=["B"]),
         dict(scn("expunge|idle,done slow reader", SEL_AB + DEL1[:1], A=["expunge"], B=["idle", "done"]), slow=["B"]),
+        # a notification is being pushed to an idling session that reads slowly while the set of sessions on the mailbox changes
+        dict(scn("3:store|select, idling slow reader", SEL_AB + [{"s": "B", "op": "idle"}], A=["store1"], C=["selinbox"]), slow=["B"]),
+        dict(scn("3:expunge|close, idling slow reader", SEL_AB + [{"s": "C", "op": "select", "m": "INBOX"}] + DEL1[:1] + [{"s": "B", "op": "idle"}], A=["expunge"], C=["close"]), slow=["B"]),
         # start state: B is inside the flush that IDLE does before it switches to immediate delivery (its second drain)
         dict(scn("store,store|idle parked in its flush,done", SEL_AB + DEL1[:1], A=["store1", "store1y"], B=["idle", "done"]), parked=["B"], parked_at={"B": 2}),
     ]
